@@ -1042,6 +1042,10 @@ class Evaluator:
                 return Const(base.ci.name)
             if attr == '__new__':
                 return ExtRef('object', '__new__')
+            if self.prog.is_namedtuple(base.ci) and attr == '_make':
+                return FuncRef(None, self_val=base, lam=('ntmake', base.ci))
+            if self.prog.is_namedtuple(base.ci) and attr == '_fields':
+                return Tup([Const(f_) for f_ in self.prog.namedtuple_fields(base.ci)])
             raise Undecided(f'class attribute {base.ci.name}.{attr}')
         if isinstance(base, EnumVal):
             m = self.prog.find_method(base.cls, attr)
@@ -1325,6 +1329,11 @@ class Evaluator:
                     v_ = self.lift(lambda o, part=part: self.getattr(o, part, st, ctx), v_)
                 return v_
             return _get(name[0]) if len(name) == 1 else Tup([_get(n_) for n_ in name])
+        if kind == 'ntmake':
+            its = self.items(st, args[0]) if len(args) == 1 and not kwargs else None
+            if its is None:
+                raise Undecided('_make of an unknown iterable')
+            return self.construct(name, list(its), {}, st, ctx)
         if kind == 'itemgetter':
             if len(args) != 1 or kwargs:
                 raise Undecided('itemgetter call')
